@@ -72,7 +72,9 @@ CLAIMED.update({
             "iterations); mutational_timescale + piecewise_scale_point_estimate on cat3 with 1-2 "
             "intervals; PopulationSizeHistory with 1-2 epochs; whole InsideOutsideMethod.run / "
             "MaximizationMethod.run on cherry/cat3 with 2-3 grid points in both probability spaces.",
-            "Kernel-wise claim: the EP message-passing loop around the projections and date() end to end are "
+            "Kernel-wise claim: propagate_likelihood (one edge / block visit, moment functions replaced by related "
+            "stubs whose argument correspondence is itself proved), propagate_prior (EM loop <= 2 iterations), "
+            "_damp and _rescale are included; longer EP schedules and date() end to end are "
             "exercised only by the replays (public API at c in {3.7, 1e-3, 123456.789} and the model's c). "
             "Exact reals; hypergeometric Laplace approximations, exp/log/lgamma and the Poisson pmf are "
             "uninterpreted functions of their (proved scale-free) arguments.", TECH + "; two-run relational "
